@@ -280,6 +280,28 @@ def eq(res):
         for other in (R.describe(x)[1], None, "x", 5):
             if x == other:
                 res.violation("C04/eq/non-object", f"{R.describe(x)} compares equal to {other!r}", {})
+    # numbers outside a kind's range and non-integers are refused when the object is built (never truncated into a byte
+    # that means another address)
+    ranges = {"GearShort": 64, "GearGroup": 16, "DeviceShort": 64, "DeviceGroup": 32, "InstanceNumber": 32, "InstanceGroup": 32,
+              "InstanceType": 32, "FeatureInstanceNumber": 32, "FeatureInstanceGroup": 32, "FeatureInstanceType": 32}
+    for kind, n in ranges.items():
+        cls = getattr(address, kind)
+        for bad in (-1, n, n + 1, 255, 256, "1", None, 1.5, [1]):
+            res.evaluations += 1
+            res.hit("ctor_rejections")
+            try:
+                obj = cls(bad)
+            except (ValueError, TypeError):
+                continue
+            except Exception as ex:
+                res.violation(f"C04/ctor/wrong-exception/{kind}", f"{kind}({bad!r}) raised {type(ex).__name__}", {"kind": kind, "arg": repr(bad)})
+                continue
+            res.violation(f"C04/ctor/accepted/{kind}", f"{kind}({bad!r}) was accepted (range 0..{n - 1})", {"kind": kind, "arg": repr(bad)})
+        for good in (0, n - 1):
+            try:
+                cls(good)
+            except Exception as ex:
+                res.violation(f"C04/ctor/legal-rejected/{kind}", f"{kind}({good}) raised {type(ex).__name__}", {"kind": kind, "arg": good})
     res.sample({"eq_pairs": len(a1) * len(a2), "example": [list(d1[0]), list(d1[70])]})
 
 
